@@ -40,9 +40,58 @@ func C02(c *Ctx) {
 		// sites of checkIndex
 		var gsites []core.GuardSite
 		nIdx := 0
+		isBatchLike := func(v ssa.Value) bool {
+			for _, o := range append(core.Origins(v), v) {
+				if ex, ok := o.(*ssa.Extract); ok && ex.Index == 0 {
+					if call, ok := ex.Tuple.(*ssa.Call); ok && strings.HasSuffix(core.CalleeName(call), "checkTargetAvailability") {
+						return true
+					}
+				}
+				if core.Mentions(o, fieldLoad("Service", "Ordered")) {
+					return true
+				}
+			}
+			return false
+		}
 		for _, call := range core.Calls(check) {
 			cl, ok := call.(*ssa.Call)
-			if !ok || core.StaticCallee(call) != ci {
+			if !ok {
+				continue
+			}
+			if g := core.StaticCallee(call); g != nil && g != ci && core.PkgOf(g) == "internal/executor/contracts" {
+				// a wrapper of checkIndex: every nil return is checkIndex's own result or lies behind a bool
+				// parameter that the call site fills with the unordered-destination flag
+				if okW, batchIdx, inner := indexGuardWrapper(g, ci); okW {
+					if batchIdx < 0 || (batchIdx < len(cl.Call.Args) && isBatchLike(cl.Call.Args[batchIdx])) {
+						nIdx++
+						gsites = append(gsites, core.GuardSite{Call: cl, Conv: core.ConvErrNil, Idx: -1})
+						// argument shape of the inner checkIndex with the wrapper's parameters substituted
+						exp, cur := inner.Call.Args[0], inner.Call.Args[1]
+						okShape := false
+						field := ""
+						if bo, ok := exp.(*ssa.BinOp); ok && bo.Op == token.ADD {
+							if one, ok := core.ConstInt(bo.Y); ok && one == 1 {
+								if lk, ok := bo.X.(*ssa.Lookup); ok {
+									if f, _, ok := counterMapOf(lk.X); ok && (f == "InterchainCounter" || f == "ReceiptCounter") {
+										okShape, field = true, f
+									}
+								}
+							}
+						}
+						if pi := paramIndex(g, cur); pi >= 0 && pi < len(cl.Call.Args) {
+							if _, curField, _, okCur := core.FieldOf(cl.Call.Args[pi]); !okCur || curField != "Index" {
+								okShape = false
+							}
+						} else if _, curField, _, okCur := core.FieldOf(cur); !okCur || curField != "Index" {
+							okShape = false
+						}
+						r.Check(okShape, "R02.1", fmt.Sprintf("checkIBTP: checkIndex #%d arguments", nIdx), c.P.Pos(cl.Pos()),
+							"expected index = "+field+"[dst] + 1, current = ibtp.Index (through "+g.Name()+")", "checkIndex is not called with (counter[dst]+1, ibtp.Index)")
+					}
+				}
+				continue
+			}
+			if core.StaticCallee(call) != ci {
 				continue
 			}
 			nIdx++
@@ -68,7 +117,7 @@ func C02(c *Ctx) {
 			r.Check(okShape, "R02.1", fmt.Sprintf("checkIBTP: checkIndex #%d arguments", nIdx), c.P.Pos(cl.Pos()),
 				"expected index = "+field+"[dst] + 1, current = ibtp.Index", "checkIndex is not called with (counter[dst]+1, ibtp.Index)")
 		}
-		r.Floor("R02.1", "checkIndex call sites in checkIBTP", nIdx, 3)
+		r.Floor("R02.1", "checkIndex call sites in checkIBTP", nIdx, 2)
 		es := core.EdgeSet{}
 		for b, m := range core.SuccessEdges(check, gsites) {
 			for i := range m {
@@ -366,4 +415,60 @@ func sameValue(a, b ssa.Value) bool {
 		return ca.Value.ExactString() == cb.Value.ExactString()
 	}
 	return false
+}
+
+// indexGuardWrapper: g returns nil only as the result of a checkIndex call or behind the true edge of one
+// of its bool parameters (the caller's "destination is unordered" flag). Returns that parameter's index
+// (-1 when there is no bypass) and the inner checkIndex call.
+func indexGuardWrapper(g, ci *ssa.Function) (bool, int, *ssa.Call) {
+	if g == nil || len(g.Blocks) == 0 || g.Signature.Results().Len() != 1 {
+		return false, -1, nil
+	}
+	var inner *ssa.Call
+	for _, call := range core.Calls(g) {
+		if cl, ok := call.(*ssa.Call); ok && core.StaticCallee(call) == ci {
+			if inner != nil {
+				return false, -1, nil
+			}
+			inner = cl
+		}
+	}
+	if inner == nil {
+		return false, -1, nil
+	}
+	batch := -1
+	for _, ret := range core.Returns(g) {
+		for _, o := range core.RetOrigins(ret.Results[0]) {
+			if o.V == ssa.Value(inner) {
+				continue
+			}
+			if !core.IsNilConst(o.V) {
+				// a constructed error
+				if !core.OriginMayBeSuccess(g, ret, o.V, core.ConvErrNil) {
+					continue
+				}
+				return false, -1, nil
+			}
+			// nil: must lie behind the true edge of a bool parameter
+			es := condEdges(g, func(f core.Fact, ifi *ssa.If) (bool, int) {
+				if f.Kind == core.FBool {
+					if p, ok := core.Strip(f.Subject).(*ssa.Parameter); ok {
+						for i, q := range g.Params {
+							if q == p {
+								batch = i
+							}
+						}
+						return true, holdsEdge(f)
+					}
+				}
+				return false, 0
+			})
+			cut := core.CutOf(es)
+			rs := core.Reach([]core.Point{core.EntryOf(g)}, nil, cut)
+			if core.OriginReachable(rs, cut, ret, o) {
+				return false, -1, nil
+			}
+		}
+	}
+	return true, batch, inner
 }
